@@ -211,6 +211,22 @@ Theorem C15_limit_size :
 Proof. exact limit_size_spec. Qed.
 Print Assumptions C15_limit_size.
 
+(* Referrers through the tag schema (registries without referrers API): an index larger
+   than the limit is an error with nothing delivered; otherwise the callback gets, in one
+   non-empty page, exactly the referrers of the requested artifact type; a failing callback
+   is the listing's error *)
+Theorem C15_tag_schema :
+  forall limit size items a cb_fail,
+    let r := tag_schema limit true size items a cb_fail in
+    ((eff_limit limit < size)%Z -> r = ([], ErrSize)) /\
+    ((size <= eff_limit limit)%Z ->
+       Forall (fun p => p <> []) (fst r) /\
+       concat (fst r) = filter_referrers items a /\
+       (snd r = Done \/ (snd r = ErrCallback /\ cb_fail 0%nat = true /\ fst r <> [])) /\
+       (cb_fail 0%nat = false -> snd r = Done)).
+Proof. exact tag_schema_spec. Qed.
+Print Assumptions C15_tag_schema.
+
 (* ---------- content/oci ---------- *)
 
 (* listTags: ascending; each non-digest reference greater than last exactly as often as the
